@@ -25,7 +25,7 @@ Cfgs == ScalarCfgs \cup {<<"List", c>> : c \in {<<"Number">>, <<"String">>, <<"B
                                                 <<"Result", "data", "nonfuzzy">>, <<"Result", "data", "fuzzy">>,
                                                 <<"List", <<"Result", "any", "any">>>>, <<"List", <<"Number">>>>}}
 Prods == {<<s, o, f>> : s \in {"finished", "new"}, o \in {"data", "number", "string", "bool", "none"}, f \in {"fuzzy", "plain"}}
-Envs == {<<w, pr>> : w \in {"none", "abs", "rel"}, pr \in Prods}
+Envs == {<<w, pr>> : w \in {"none", "abs", "rel", "empty"}, pr \in Prods}
 \* the environment only matters for paths (wd) and results (producer): avoid enumerating irrelevant combinations
 RECURSIVE Mentions(_, _)
 Mentions(v, tag) == v[1] = tag \/ (v[1] \in {"list", "pytuple"} /\ \E i \in 1..Len(v[2]) : Mentions(v[2][i], tag))
@@ -55,7 +55,8 @@ Typed == done =>
     /\ (p = <<"Number">> /\ v = <<"str", "intstr">> => res[2][1] = "int")
     /\ (p = <<"Number">> /\ v[1] = "str" /\ v[2] \in {"floatstr", "expstr"} => res[2] = <<"float">>)
     /\ (p = <<"Boolean">> /\ res[1] = "ok" => res[2] = <<"bool">>)
-    /\ (p[1] = "Path" /\ res[1] = "ok" => res[2][1] = "str" /\ res[2][2] \in PathForms)
+    /\ (p[1] = "Path" /\ res[1] = "ok" /\ env[1] # "empty" => res[2][1] = "str" /\ res[2][2] \in PathForms)
+    /\ (p[1] = "Path" /\ res[1] = "ok" /\ env[1] = "empty" => res[2] = v)
     /\ (p[1] = "Path" /\ res[1] = "ok" /\ env[1] = "abs" => res[2][2] \in {"abs_exists", "abs_missing", "abs_joined", "abs_joined_missing"})
     /\ (p[1] = "Result" /\ res[1] = "ok" => res[2] = <<"cmd">>)
     /\ (p[1] = "DataType" /\ res[1] = "ok" => res[2] = <<"type">>)
